@@ -132,7 +132,17 @@ def oracle(case, out):
         return ("panic", out[2:])
     if not out.startswith("F:") or "|" not in out:
         return ("protocol", out)
-    text, rb = out[2:].rsplit("|", 1)
+    fields = out[2:].split("|")
+    text, rb = fields[0], fields[1] if len(fields) > 1 else ""
+    shown_as_result = fields[2][2:].split(";") if len(fields) > 2 and fields[2].startswith("Q:") else None
+    if shown_as_result is not None and sep_harmless(sep):
+        # the way results are displayed (InterpreterResult::to_markup -> Quantity::pretty_print_with -> plain text) must
+        # show the very same number text, with the same format options, followed by the unit
+        want = [text, text + " m", text + " km/h"]
+        if x == 0:
+            want = [text, shown_as_result[1], shown_as_result[2]]      # a zero is displayed without its unit
+        if shown_as_result != want:
+            return ("result-display", "Number::pretty_print_with gives %r but results are displayed as %r" % (text, shown_as_result))
     if not sep_harmless(sep):
         return None  # nothing is claimed for separators made of digits/sign/point/e (counted separately)
     stripped = text.replace(sep, "") if sep else text
@@ -310,6 +320,8 @@ def run(chk):
         "ryu d2d itself is not modelled",
         "hook numbat::verif::misc::format_number(bits, sep, threshold, sig) = Number::pretty_print_with",
         "read-back through Context::interpret of the displayed text with the separator removed (str::replace)",
+        "the same f64 is also displayed as a result (scalar, `x m`, `x km/h`) through InterpreterResult::to_markup with the same FormatOptions "
+        "and must show the same number text (covers Quantity::pretty_print_with and the markup/plain-text path)",
         "the model's literal reader covers numbat's number syntax without underscores; agreement with the real tokenizer is checked per case",
     ]
     quick = chk.tier == "quick"
@@ -340,7 +352,7 @@ def run(chk):
     items = []
     for n, c in enumerate(cases):
         o = impl[n]
-        obs = "P" if o.startswith("P:") else (o.rsplit("|", 1)[0] if "|" in o else o)
+        obs = "P" if o.startswith("P:") else o.split("|")[0]
         items.append((coq_case(c), obs))
     bad = common.coq_mismatches(["NumFmt.Model", "NumFmt.Classify", "NumFmt.Exec"], items, "c14",
                                 shard_size=max(250, -(-len(items) // common.NPROC)),
@@ -405,7 +417,7 @@ def run(chk):
     nontrivial = 0
     for n, c in enumerate(cases):
         o = impl[n]
-        t = o[2:].rsplit("|", 1)[0] if o.startswith("F:") else o
+        t = o[2:].split("|")[0] if o.startswith("F:") else o
         grouped = c[3] != "" and c[3] in t and kind_of(c) == "int"
         rounded = kind_of(c) == "float" and len(classify(c[0])[2]) > max(1, min(c[2], 255))
         enot = "e" in t and kind_of(c) == "float"
